@@ -7,6 +7,7 @@ import UF.Compose2.MatchFull
 import UF.Compose2.NewRuleFull
 import UF.Compose3.WebTop
 import UF.Compose3.CosTop
+import UF.Compose3.CosText
 import UF.Compose3.DnsTop
 /- Ops of work group I3 (see notes/AGENT_GUIDE.md). Return `none` for ops of other groups.
 
@@ -48,22 +49,11 @@ def optText : Option NetRule → String
   | none => "_"
   | some r => outBytes r.text
 
-/-- The named modifiers as WRITTEN in the rule text (independent of the option parser: `parseRuleText`
-    splits pattern and options, the options are cut at commas, names are compared literally). -/
+/-- The named modifiers as WRITTEN in the rule text (`parseRuleText` splits pattern and options;
+    `textCosMods` cuts the options at unescaped commas and compares the names literally — theorem `c16_text`). -/
 def textMods (t : Bytes) : Bool × List CosMod :=
   match E.parseRuleText t with
-  | .ok (_, opts, wl) =>
-    (wl, (Bytes.splitByte opts (ch ',')).filterMap fun o =>
-      if o == lit "elemhide" then some .elemhide
-      else if o == lit "generichide" then some .generichide
-      else if o == lit "jsinject" then some .jsinject
-      else if o == lit "document" then some .document
-      else if o == lit "urlblock" then some .urlblock
-      else if o == lit "genericblock" then some .genericblock
-      else if o == lit "content" then some .content
-      else if o == lit "extension" then some .extension
-      else if o == lit "important" then some .important
-      else none)
+  | .ok (_, opts, wl) => (wl, textCosMods opts)
   | .error _ => (false, [])
 
 def outWeb (cls : VClass) (basic doc : Option NetRule) (opt : CosOpt) (sel : List Bytes × List Bytes) : String :=
